@@ -14,7 +14,9 @@ import (
 )
 
 func init() {
-	for _, p := range []string{"C02", "C18", "C04", "C01"} {
+	// (claimed by every property: "a string is a value" carries every postcondition that speaks about
+	// strings - the text a macro call yields, an escaped value, a token's text, a loaded source)
+	for _, p := range []string{"C01", "C02", "C03", "C04", "C05", "C06", "C07", "C08", "C09", "C10", "C11", "C12", "C13", "C14", "C15", "C16", "C17", "C18", "C19", "C20"} {
 		families[p] = append(families[p], stringAliasFamily)
 	}
 }
